@@ -68,6 +68,7 @@ def run(ctx):
     ctx.require('C08 decided cells', tot, 200)
     # R10: the three narrowing conversions on rounding cells of the source format (every non-zero real source pattern is in exactly one)
     import rules_rounding
+    ctx.trusted += [t for t in rules_rounding.TRUSTED if t not in ctx.trusted]
     ctx.rules.append('R10 rounding cells: symbolic bit-vector result == correctly rounded encoding, per (sign, source regime, exponent, rounding case)')
     ncells = nproved = 0
     for src, dst in PAIRS:
